@@ -18,7 +18,7 @@ CONF = {
     "C02": tiers(2500, 4, 40000, 12),
     "C03": tiers(2000, 4, 30000, 12, t_stages=["fuzz"], t_fuzztime="90s"),
     "C04": tiers(3000, 4, 40000, 12, stages=["c04gen"], t_gen_defs=150, t_gen_inputs=300),
-    "C07": tiers(2500, 4, 40000, 12, t_stages=["fuzz"], t_fuzztime="90s"),
+    "C07": tiers(2500, 4, 40000, 12, q_stages=["c07gen"], t_stages=["c07gen", "fuzz"], t_fuzztime="90s", t_gen_defs=150, t_gen_inputs=300),
     "C16": tiers(1500, 4, 20000, 12),
     "C17": tiers(20000, 2, 300000, 12),
     "C18": tiers(15000, 2, 200000, 12),
